@@ -203,13 +203,13 @@ func runConcStream(seed int64, n int, out, backendSpec string) *RunReport {
 					case 3:
 						plans[c] = append(plans[c], cOp{kind: "del", g: 1 + g.Intn(int(nextG)+1)})
 					case 4:
-						if g.Bool() {
-							plans[c] = append(plans[c], cOp{kind: "like", g: c*10 + j})
-						} else {
-							plans[c] = append(plans[c], cOp{kind: "count"})
-						}
+						plans[c] = append(plans[c], cOp{kind: "like", g: c*10 + j})
 					default:
-						plans[c] = append(plans[c], cOp{kind: "read"})
+						if g.Bool() {
+							plans[c] = append(plans[c], cOp{kind: "count"})
+						} else {
+							plans[c] = append(plans[c], cOp{kind: "read"})
+						}
 					}
 				}
 			}
